@@ -156,6 +156,37 @@ namespace rkcommon {
       buf.write((const byte_t *)rh.data(), sizeof(T) * sz);
       return buf;
     }
+
+    // The array types themselves: for an object of a derived type the generic
+    // raw-data operator above would otherwise be the better match and write
+    // the bytes of the wrapper object instead of its elements
+    template <typename T>
+    inline WriteStream &operator<<(WriteStream &buf,
+                                   const utility::ArrayView<T> &rh)
+    {
+      return buf << static_cast<const utility::AbstractArray<T> &>(rh);
+    }
+
+    template <typename T>
+    inline WriteStream &operator<<(WriteStream &buf,
+                                   const utility::OwnedArray<T> &rh)
+    {
+      return buf << static_cast<const utility::AbstractArray<T> &>(rh);
+    }
+
+    template <typename T>
+    inline WriteStream &operator<<(WriteStream &buf,
+                                   const utility::FixedArray<T> &rh)
+    {
+      return buf << static_cast<const utility::AbstractArray<T> &>(rh);
+    }
+
+    template <typename T>
+    inline WriteStream &operator<<(WriteStream &buf,
+                                   const utility::FixedArrayView<T> &rh)
+    {
+      return buf << static_cast<const utility::AbstractArray<T> &>(rh);
+    }
     /*! @} */
 
     /*! @{ serialize operations for strings */
